@@ -8,6 +8,7 @@ from fv import pyimpl
 from fv.claims import CLAIMS
 
 ID = "C19"
+CASE_TIMEOUT_S = 2400  # per-case alarm (seconds); a case that does not finish is reported as a violation
 LEVEL = "exploration"
 TECHNIQUE = CLAIMS[ID]["technique"]
 RULE = (
